@@ -18,6 +18,7 @@ import re
 
 from gen import srcgen, ctorgen
 from vlib import core, gencode, gencode_py
+from checks import c10
 
 COQ_TARGETS = ["Props/C11.vo", "Model/PySemChecks.vo"]
 PROPS = "Props/C11.v"
@@ -69,6 +70,8 @@ def diffs(a, b, path=(), out=None, null_ok=True):
 
 def classify(diff):
     _, a, b = diff
+    if isinstance(a, str) and not a.startswith("<") and isinstance(b, list):
+        return "byte-array-printed-as-base64-string"
     if b == "<absent>" and a in ([], {}):
         return "empty-collection-absent"
     if a == "<absent>" and b in ([], {}):
@@ -95,6 +98,16 @@ def classify(diff):
 IR_SCALAR = ("bool", "int", "float", "string", "datetime", "any", "const")
 
 
+def _ir_scalar(schema, t):
+    """the element type is a scalar of the IR (ArrayType.IsArrayOf(KindScalar)): a constant is one except in OpenAPI,
+    where it is written as an enumeration of one value"""
+    if t["k"] == "const":
+        if schema.get("fmt") != "openapi":
+            return True
+        return t.get("enum1") is False      # gen/ctorgen.py: pattern idiom (a constant of the IR); srcgen: always an enum of one
+    return t["k"] in IR_SCALAR
+
+
 def null_culprits(schema, doc, defname):
     """kinds of the typed positions holding an explicit null INTO WHICH from_json recurses (a class, an array or
     map whose element type is not an IR scalar, a discriminated union): why from_json may raise"""
@@ -109,7 +122,7 @@ def null_culprits(schema, doc, defname):
                     out.add("struct")
                 elif k == "dunion":
                     out.add("discriminated-union")
-                elif k in ("array", "map") and rt["of"]["k"] not in IR_SCALAR:
+                elif k in ("array", "map") and not _ir_scalar(schema, rt["of"]):
                     out.add(k + "-of-non-scalars")
     except Exception:
         pass
@@ -123,7 +136,7 @@ def has_nested_maps(schema):
         k = t["k"]
         if k == "map":
             inner = g.resolve(t["of"])
-            if inner["k"] == "map" and inner["of"]["k"] not in IR_SCALAR:
+            if inner["k"] == "map" and not _ir_scalar(schema, inner["of"]):
                 return True
             return walk(t["of"])
         if k == "array":
@@ -144,9 +157,12 @@ def run(ctx, verdict, replay=None, model_ok=True):
         texts[pkg] = text
         return batch.add({"pkg": pkg, "root": "Root", "defs": [], "fmt": fmt}, fmt, text=text)
 
+    replay_schemas = {}
     if replay:
         for job in gencode.Campaign.replay_jobs(replay):
             replay_jobs.append((add_text(job["pkg"], job["fmt"], job["schema_text"]), job))
+            if job.get("schema"):
+                replay_schemas[job["pkg"]] = c10.schema_from_json(job["schema"])
     else:
         cdir = os.path.join(core.VERIF, "corpus", "C11")
         if os.path.isdir(cdir):
@@ -155,8 +171,10 @@ def run(ctx, verdict, replay=None, model_ok=True):
                 job = dict(job, pkg="k%03d" % len(replay_jobs))
                 job["schema_text"] = re.sub(r"(?m)^package \w+", "package " + job["pkg"], job["schema_text"])
                 replay_jobs.append((add_text(job["pkg"], job["fmt"], job["schema_text"]), job))
-        per_fmt = 400 if thorough else 56
-        per_fmt_defaults = 120 if thorough else 14
+                if job.get("schema"):
+                    replay_schemas[job["pkg"]] = dict(c10.schema_from_json(job["schema"]), pkg=job["pkg"])
+        per_fmt = 500 if thorough else 100
+        per_fmt_defaults = 150 if thorough else 24
         k = 0
         for fmt in srcgen.FORMATS:
             for _ in range(per_fmt):
@@ -181,6 +199,7 @@ def run(ctx, verdict, replay=None, model_ok=True):
     ok_go = set(batch.ok_sids())
     ok_py = set(batch.py_ok_sids())
     schema_by = {sid: s for sid, s in plan}
+    schema_by.update(replay_schemas)
     jobs = []
 
     def add_job(sid, objname, pydocs, meta=None):
@@ -225,6 +244,8 @@ def run(ctx, verdict, replay=None, model_ok=True):
         j = jobs[i]
         job = {"fmt": batch.schemas[j["sid"]][1], "pkg": j["sid"], "schema_text": texts[j["sid"]], "type": j["type"],
                "docs": j["docs"] if d is None else [j["docs"][d]], "meta": j["meta"]}
+        if j["sid"] in schema_by:
+            job["schema"] = c10.schema_to_json(schema_by[j["sid"]])
         p = {"job": job}
         p.update(extra or {})
         return p
@@ -334,8 +355,10 @@ def run(ctx, verdict, replay=None, model_ok=True):
                 if df:
                     counts["python_roundtrip_differs"] += 1
                     py_rt_groups.add(i)
-                    for cause in sorted({classify(y) for y in df}):
-                        one = [y for y in df if classify(y) == cause][0]
+                    nested = bool(s) and has_nested_maps(s)
+                    cls_ = (lambda y: "map-of-maps-of-non-scalars:wrong-entry" if nested and classify(y) in ("other", "number-changed", "member-absent", "member-added") and len(y[0]) >= 3 else classify(y))
+                    for cause in sorted({cls_(y) for y in df}):
+                        one = [y for y in df if cls_(y) == cause][0]
                         report({"kind": "python-roundtrip-differs", "cause": cause, "fragment": "safe" if i in rt_safe_fail else "excluded"},
                                i, d, {"difference": {"path": list(one[0]), "original": one[1], "reencoded": one[2]}, "observed": x})
             gx = g["res"][d] if g and g.get("known") else None
@@ -344,8 +367,10 @@ def run(ctx, verdict, replay=None, model_ok=True):
                 if df:
                     counts["wire_differs"] += 1
                     py_wire_groups.add(i)
-                    for cause in sorted({classify(y) for y in df}):
-                        one = [y for y in df if classify(y) == cause][0]
+                    nested = bool(s) and has_nested_maps(s)
+                    cls_ = (lambda y: "map-of-maps-of-non-scalars:wrong-entry" if nested and classify(y) in ("other", "number-changed", "member-absent", "member-added") and len(y[0]) >= 3 else classify(y))
+                    for cause in sorted({cls_(y) for y in df}):
+                        one = [y for y in df if cls_(y) == cause][0]
                         report({"kind": "go-and-python-differ-on-the-wire", "cause": "go->python:" + cause,
                                 "fragment": "safe" if i in wire_safe_fail else "excluded"}, i, d,
                                {"difference": {"path": list(one[0]), "go": one[1], "python": one[2]}, "go": gx, "python": x})
